@@ -149,7 +149,8 @@ class Shape(object):
             pool = ["x%d" % value, "100", "1 1"] if optional else ["   ", "x%d" % value, "100", "-1"]
         else:
             pool = [" ", "x%d" % value, "  ", "100", "1.5"] if optional else ["x%d" % value, "", " ", "100", "-1"]
-        return pool[(number - 1) % len(pool)]
+        # (two rows in a row use the same entry: the same unacceptable text twice in one column)
+        return pool[((number - 1) // 2) % len(pool)]
 
     def data_text(self, table):
         lines = []
